@@ -58,6 +58,15 @@ IDS = [A, SCO["id"], OLD20["id"], MD["id"], XID, RID, T5ID, I1ID, "campaign--" +
 TYPES = ["campaign", "ipv4-addr", "marking-definition", "x-unreg", "x-verif-obj", "tool", "identity", "malware", "course-of-action"]
 
 
+# queries by a timestamp given as TEXT in another spelling than the one the stores write (a timestamp filter compares instants).  Objects the stores keep as plain
+# dictionaries are left out on both sides: for them the comparison is textual, which is C12's listed finding (string-timestamp-filter-vs-dict-kept-object).
+DICT_KEPT = {XID, NCID, CU["id"]}
+TS_QUERIES = [("modified = T1 written without fraction", "modified", "=", "2020-01-01T00:00:00Z"), ("modified = T3 written .5Z", "modified", "=", "2020-01-03T00:00:00.5Z"),
+              ("modified >= T2 written with six digits", "modified", ">=", "2020-01-02T00:00:00.000000Z"), ("modified < T2 written without fraction", "modified", "<", "2020-01-02T00:00:00Z"),
+              ("modified <= T3 written .50Z", "modified", "<=", "2020-01-03T00:00:00.50Z"), ("created = T1 written .0Z", "created", "=", "2020-01-01T00:00:00.0Z")]
+_OPS = {"=": lambda a, b: a == b, ">=": lambda a, b: a >= b, "<": lambda a, b: a < b, "<=": lambda a, b: a <= b}
+
+
 def register_custom():
     import stix2
     from stix2 import properties as P
@@ -100,12 +109,15 @@ def EVENTS():
         "v2-loadfile": (lambda: ("$loadfile", bundle_dict(V2)), [V2]), "v1v3-loadfile": (lambda: ("$loadfile", bundle_dict(V1, V3)), [V1, V3]),
         "c2-loadfile": (lambda: ("$loadfile", bundle_dict(C2)), [C2]),
         "c3": (lambda: copy.deepcopy(C3), [C3]), "c4-text": (lambda: json.dumps(C4), [C4]),
+        # bundles as ELEMENTS of a list (object and dict form) next to a plain object
+        "list-of-bundles": (lambda: [stix2.v21.Bundle(O(V1)), bundle_dict(V3), O(SCO)], [V1, V3, SCO]),
+        "list-of-bundle-dict": (lambda: [bundle_dict(V2, C1)], [V2, C1]),
         "tool5a": (lambda: O(TOOL5A), [TOOL5A]), "tool5b-dict": (lambda: copy.deepcopy(TOOL5B), [TOOL5B]), "ident1": (lambda: O(IDENT1), [IDENT1]),
     }
 
 
 QUICK_EVENTS = ["v1-obj", "v2-obj", "v3-obj", "v1-dict", "v2-dict-6digits", "v3-list", "v1v3-bundle-obj", "v2-bundle-dict", "v1-text", "v2x-obj",
-                "sco", "old20-dict", "md", "reg2-dict", "c0", "c1", "c2", "mix-list", "c3", "c4-text", "tool5a", "tool5b-dict", "v3us-obj", "cu", "coa-upper1", "v2-loadfile", "v1v3-loadfile", "c2-loadfile", "nc1", "nc2"]
+                "sco", "old20-dict", "md", "reg2-dict", "c0", "c1", "c2", "mix-list", "c3", "c4-text", "tool5a", "tool5b-dict", "v3us-obj", "cu", "coa-upper1", "v2-loadfile", "v1v3-loadfile", "c2-loadfile", "nc1", "nc2", "list-of-bundles", "list-of-bundle-dict"]
 ALL_EVENTS = QUICK_EVENTS + ["reg1", "ident1", "coa-upper2-dict", "nc12-bundle"]
 
 
@@ -210,7 +222,13 @@ def observe(store, part, what):
             obs["types"][t] = sorted(((o["id"], instant_of(o)) for o in store.query([Filter("type", "=", t)])), key=str)
         except Exception as e:
             obs["types"][t] = "EXC:" + type(e).__name__
-    part.transitions += 2 * len(IDS) + len(TYPES) + 1
+    obs["tsq"] = {}
+    for label, prop, op, text in TS_QUERIES:
+        try:
+            obs["tsq"][label] = sorted(((o["id"], instant_of(o)) for o in store.query([Filter(prop, op, text)]) if o["id"] not in DICT_KEPT), key=str)
+        except Exception as e:
+            obs["tsq"][label] = "EXC:" + type(e).__name__
+    part.transitions += 2 * len(IDS) + len(TYPES) + 1 + len(TS_QUERIES)
     return obs
 
 
@@ -268,6 +286,19 @@ def compare(sname, obs, model, part, case, conflicted):
             part.violation("C11/%s/type-query-raises/%s/%s" % (sname, gt, t), "query by type raises", dict(case, type=t), exp_t, gt)
         elif set(map(tuple, gt)) != set(exp_t):
             part.violation("C11/%s/type-query/%s" % (sname, t), "query by type does not return exactly the stored objects of that type", dict(case, type=t), exp_t, gt)
+    for label, prop, op, text in TS_QUERIES:
+        ref_t = tsfmt.instant_of(text)
+        if prop == "modified":
+            exp_q = sorted(((i, x) for (i, x) in model.keys() if i not in DICT_KEPT and x is not None and _OPS[op](x, ref_t)), key=str)
+        else:
+            # every non-dict-kept object of the menu that has 'created' was created at T1
+            exp_q = sorted(((i, x) for (i, x) in model.keys() if i not in DICT_KEPT and i != SCO["id"] and _OPS[op](tsfmt.instant_of(T1), ref_t)), key=str)
+        gq = obs["tsq"][label]
+        if isinstance(gq, str):
+            part.violation("C11/%s/timestamp-text-query-raises/%s" % (sname, gq), "a query by a timestamp given as text raises", dict(case, query=label), exp_q, gq)
+        elif set(map(tuple, gq)) != set(exp_q):
+            part.violation("C11/%s/timestamp-text-query/%s/%s" % (sname, prop, op), "a query by a timestamp given as text (another spelling of the instant) does not return exactly the stored versions it denotes",
+                           dict(case, query=label), exp_q, gq)
     # contents of every version that was added with a single content
     if not isinstance(obs["all"], str):
         for (i, t), hashes in obs["content"].items():
@@ -368,7 +399,7 @@ def run_history(case, part):
         compare("fs", fobs, fm, part, case, conflicted)
         if mm.keys() == fm.keys() and not conflicted:
             # same acknowledged contents => the two stores must answer identically (three-way agreement)
-            for key in ("all", "versions", "types"):
+            for key in ("all", "versions", "types", "tsq"):
                 a, b = mobs[key], fobs[key]
                 if key == "all" and not isinstance(a, str) and not isinstance(b, str):
                     a, b = sorted(set(map(tuple, a)), key=str), sorted(set(map(tuple, b)), key=str)
